@@ -7,7 +7,7 @@
    (harness/cmd/hx-c10: real instances, real validators), not by a theorem. *)
 From Coq Require Import List NArith ZArith Bool.
 From SSV Require Import Qbft.Model Qbft.Compact Qbft.Honest Qbft.Bridge Qbft.SyncRound Qbft.SyncGeneric
-     Qbft.HonestGate Qbft.HonestGateRound.
+     Qbft.RecoverGeneric Qbft.HonestGate Qbft.HonestGateRound.
 From SSV Require Validation.Model Gen.ValidationConsts Validation.ProofsPanic Validation.ProofsTime Validation.Rules
      Validation.HonestRound Validation.HonestTime Validation.HonestEnvelope.
 Import ListNotations.
@@ -128,7 +128,7 @@ Theorem C10_fault_free_round_is_accepted : forall (qc : cfg) (h ld : N),
   (N.eqb role VC.roleValidatorRegistration || N.eqb role VC.roleVoluntaryExit) = false ->
   V.valid_role role = true -> fdlen <> 0 ->
   forall (l : list ((Z * Z) * smsg)) (vs : V.vstate),
-  (forall s, V.get_signer s (V.get_cs (vid, role) vs) = None) ->
+  HR.before_round h VC.firstRound (V.get_cs (vid, role) vs) ->
   NoDup (map snd l) ->
   Forall (fun x => HE.in_slot vc h (fst x) /\ In (snd x) (all_broadcasts qc h ld)) l ->
   Forall (eq V.Accept)
@@ -136,12 +136,45 @@ Theorem C10_fault_free_round_is_accepted : forall (qc : cfg) (h ld : N),
 Proof. exact fault_free_round_is_accepted. Qed.
 Print Assumptions C10_fault_free_round_is_accepted.
 
+(* [before_round h rho cs]: every signer has no state, or a state of this duty from a round below rho *)
+Theorem C10_fresh_validator_is_before_any_round : forall h rho k, HR.before_round h rho (V.get_cs k []).
+Proof. intros h rho k s. reflexivity. Qed.
+Print Assumptions C10_fresh_validator_is_before_any_round.
+
+(* The recovery round after a silent first round (C07_recovery_from_silent_round), through the gate: what the live
+   operators broadcast in round 2 - unprepared round changes, the leader's proposal justified by the first quorum
+   of them, prepares, commits ([round2_broadcasts]; it is part of what the protocol model broadcasts:
+   C10_recovery_round_broadcasts) - delivered in ANY order, each at most once, at any instant of the duty's slot,
+   to a peer whose validator saw nothing or only round 1 of the duty, is all Accepted. *)
+Theorem C10_recovery_round_broadcasts : forall c h ld1 ld2 live i m,
+  In m (round2_broadcasts c h ld2 live i) -> In m (recover_bcasts c h ld1 ld2 live i).
+Proof. exact round2_in_recover_bcasts. Qed.
+Print Assumptions C10_recovery_round_broadcasts.
+
+Theorem C10_recovery_round_is_accepted : forall (qc : cfg) (h ld2 : N) (live : list N),
+  ~ In 0 (committee qc) -> (forall y, In y live -> In y (committee qc)) ->
+  proposer qc h R2 = Some ld2 -> h <= 9223372036854775807 ->
+  forall (vc : V.cfg) (sh : V.share) (vid role fdlen : N) (p2p : bool) (rawlen dlen pkprefix : N),
+  VP.wf_cfg vc -> V.get_share vc vid = Some sh -> V.s_committee sh = committee qc ->
+  V.s_liquidated sh = false -> V.s_has_meta sh = true -> V.s_attesting sh = true ->
+  dlen <> 0 -> dlen <= VC.maxConsensusMsgSize -> VC.messageOffset < rawlen -> rawlen <= VC.maxEncodedMsgSize ->
+  (N.eqb role VC.roleValidatorRegistration || N.eqb role VC.roleVoluntaryExit) = false ->
+  V.valid_role role = true -> fdlen <> 0 ->
+  forall (l : list ((Z * Z) * smsg)) (vs : V.vstate),
+  HR.before_round h 2 (V.get_cs (vid, role) vs) ->
+  NoDup (map snd l) ->
+  Forall (fun x => HE.in_slot vc h (fst x) /\ In (snd x) (all_broadcasts2 qc h ld2 live)) l ->
+  Forall (eq V.Accept)
+         (snd (V.run vc vs (map (fun x => (fst x, envelope_of2 vc vid role fdlen p2p rawlen dlen pkprefix (snd x))) l))).
+Proof. exact recovery_round_is_accepted. Qed.
+Print Assumptions C10_recovery_round_is_accepted.
+
 (* the timing assumption is what it says: any instant of the duty's slot passes the slot and round windows *)
-Theorem C10_own_slot_is_inside_the_windows : forall c now role h,
-  VP.wf_cfg c -> VT.wf_time c now -> VR.true_slot c (fst now) = Z.of_N h ->
+Theorem C10_own_slot_is_inside_the_windows : forall c now role h rho,
+  VP.wf_cfg c -> VT.wf_time c now -> VR.true_slot c (fst now) = Z.of_N h -> rho <= 2 ->
   V.validate_slot_time c h role (V.time_unix (fst now) (snd now)) = None /\
-  (V.addw (V.estimated_round c h (V.time_unix (fst now) (snd now))) VC.allowedRoundsInFuture <? VC.firstRound) = false.
-Proof. intros; split; [apply HT.own_slot_passes_slot_time|apply HT.own_slot_round_one_in_window]; assumption. Qed.
+  (V.addw (V.estimated_round c h (V.time_unix (fst now) (snd now))) VC.allowedRoundsInFuture <? rho) = false.
+Proof. intros; split; [apply HT.own_slot_passes_slot_time|apply HT.own_slot_round_in_window]; assumption. Qed.
 Print Assumptions C10_own_slot_is_inside_the_windows.
 
 (* non-vacuity: four operators, height 1000 (leader 1), the mainnet clock, an attester duty; all nine broadcasts of
@@ -161,4 +194,18 @@ Example C10_fault_free_round_example :
   VR.true_slot c10_vcfg (fst c10_now) = 1000%Z /\ length c10_deliveries = 9%nat /\
   snd (V.run c10_vcfg [] (map (fun x => (fst x, envelope_of c10_vcfg 1 0 8 true 400 200 77 (snd x))) c10_deliveries))
   = repeat V.Accept 9.
+Proof. vm_compute. repeat split; reflexivity. Qed.
+
+(* the recovery round of C07_recovery_example (operator 1, leader of round 1, silent; operators 2, 3, 4 recover under
+   leader 2) delivered in reverse order to a peer that has already seen the round-1 prepare of operator 3 *)
+Definition c10_deliveries2 : list ((Z * Z) * smsg) :=
+  map (fun m => (c10_now, m)) (rev (all_broadcasts2 (sync_cfg 4) 1000 2 [2; 3; 4])).
+
+Example C10_recovery_round_example :
+  proposer (sync_cfg 4) 1000 R2 = Some 2 /\ length c10_deliveries2 = 10%nat /\
+  let '(vs1, r1) := V.run c10_vcfg [] [(c10_now, envelope_of c10_vcfg 1 0 8 true 400 200 77
+                                           (msg_of (sync_cfg 4) 1000 T_PREPARE 3 (hash (start_value 1)) None))] in
+  r1 = [V.Accept] /\
+  snd (V.run c10_vcfg vs1 (map (fun x => (fst x, envelope_of2 c10_vcfg 1 0 8 true 400 200 77 (snd x))) c10_deliveries2))
+  = repeat V.Accept 10.
 Proof. vm_compute. repeat split; reflexivity. Qed.
